@@ -20,8 +20,8 @@ from harness import common as C
 from harness import probes
 
 PROP = "C19"
-TARGETS = ["IbicusModel.Props.C19"]
-GEN = []
+TARGETS = ["IbicusModel.Props.C19", "IbicusModel.Lemmas.GenMetrics", "IbicusModel.Props.C19Gen"]  # the audit imports all three
+GEN = ["Metrics"]  # tier A: dispatch, spell expression, per-location formulas of metrics.py (translator/extract_metrics.py)
 
 SEASON_CODE = {"Winter": 0, "Spring": 1, "Summer": 2, "Autumn": 3}
 SHAPES = [(1, 1), (2, 3), (3, 1), (1, 3), (1, 2), (2, 1)]  # singleton grid dimensions on either axis included
@@ -516,7 +516,12 @@ def _oracle(case, out):
         if (pct[ok] < -1e-9).any() or (pct[ok] > 100 + 1e-9).any():
             bad.append(("accumulative_percent_range", f"percent of total amount outside [0,100]: {pct[ok].tolist()[:4]}"))
     okp = (tot != 0) & fin
-    if not np.allclose(pct[okp], 100 * amount[okp] / tot[okp], rtol=1e-12, atol=1e-9):
+    rt = 1e-12
+    if case.get("inexact"):  # arbitrary floats (not small dyadics): sums round, so the ratio is judged only where the total does not cancel
+        with np.errstate(all="ignore"):
+            okp = okp & (np.abs(tot) >= 0.01 * np.abs(x).sum(axis=0))
+        rt = 1e-10
+    if not np.allclose(pct[okp], 100 * amount[okp] / tot[okp], rtol=rt, atol=1e-9):
         bad.append(("accumulative_percent", "percent of total amount is not 100 * amount over the exceeding steps / total"))
     if out["annualv"].shape != (len(yrs), I, J) or not np.allclose(out["annualv"].sum(axis=0), amount, rtol=1e-12, atol=1e-9):
         bad.append(("accumulative_annual", f"annual values do not sum to the amount over the exceeding steps ({out['annualv'].sum(axis=0).ravel()[:3].tolist()} vs {amount.ravel()[:3].tolist()})"))
@@ -746,7 +751,190 @@ def describe_q(qc):
     if qc["T"] * qc["I"] * qc["J"] <= 120:
         d["data"] = C.rlist(qc["vals"])
         d["time"] = [str(t) for t in qc["time"]]
+    if qc.get("scaled"):
+        d["scaled"] = qc["scaled"]
     return d
+
+
+# ------------------------------------------------------------------ near-threshold margins at physical magnitudes
+# Quantifier covered: "for all datasets ... the instance array equals the defining comparison (strict >, strict <, ...)".
+# The dyadic generators above only produce values that either tie with a threshold or are >= 1/128 away from it at
+# magnitudes <= 5, so a comparison that is strict "up to a tolerance" (np.isclose, rounding, float32 thresholds, an
+# epsilon added to the threshold) is indistinguishable from the defining one.  Here every entry sits ON a threshold,
+# or strictly beyond it by a small *representable* margin (1 ulp ... 1e-3 relative / absolute), at the magnitudes the
+# library is used at (precipitation flux ~1e-5, Kelvin ~3e2, ~1e6, ~1e-12, signed values around 0 incl. denormals).
+# Every float is a dyadic rational, so the reference comparison (exact Fractions) and the Lean model stay exact; only
+# sums / ratios round, which the oracle tolerates (case["inexact"]).
+NEAR_REGIMES = ["flux", "flux", "kelvin", "kelvin", "large", "tiny", "signed", "signed"]
+NEAR_UNIT = {"flux": 1 / 86400, "kelvin": 3.0, "large": 1e5, "tiny": 1e-12, "signed": 1.0}
+NEAR_BASE = {"flux": 0.0, "kelvin": 273.15, "large": 0.0, "tiny": 0.0, "signed": 0.0}
+
+
+def near_value(rng, a, unit, positive):
+    """a float that ties with the float threshold `a`, lies strictly beyond it by a small representable margin, or far"""
+    r = rng.random()
+    if r < 0.12:
+        return a
+    sgn = rng.choice([-1.0, 1.0])
+    if r >= 0.85:
+        v = a + sgn * unit * rng.uniform(0.05, 0.9)
+    else:
+        how = rng.choice(["ulp", "ulps", "rel", "rel", "rel", "abs", "abs"])
+        if how == "ulp":
+            v = math.nextafter(a, sgn * math.inf)
+        elif how == "ulps":
+            v = a
+            for _ in range(rng.randint(2, 8)):
+                v = math.nextafter(v, sgn * math.inf)
+        elif how == "rel":
+            v = a + sgn * abs(a) * 10 ** -rng.uniform(3, 15.5)
+        else:
+            v = a + sgn * unit * 10 ** -rng.uniform(3, 14)
+    if not ((v > a) if sgn > 0 else (v < a)):  # the margin was below the spacing of floats at `a`
+        v = math.nextafter(a, sgn * math.inf)
+    if positive and v <= 0:
+        v = a
+    return v
+
+
+def near_case(rng, tier):
+    """a well-formed case of gen_case whose thresholds are moved to a physical magnitude and whose data lie on / just
+    beyond / far from the threshold that applies to each entry"""
+    case = gen_case(rng, tier)
+    small = rng.random() < 0.8  # mostly small enough for the replay file to carry the data
+    while case["expect_error"] or case["T"] > 80 or (small and case["T"] * case["I"] * case["J"] > 120):
+        case = gen_case(rng, tier)
+    regime = rng.choice(NEAR_REGIMES)
+    unit, base = NEAR_UNIT[regime], NEAR_BASE[regime]
+
+    def tmap(v):  # monotone, so lower <= upper is kept
+        return v if regime == "signed" else Fraction(base + unit * (float(v) + 6.0))
+
+    def tmap_spec(v):
+        def one(u):
+            return tmap(u) if case["loc"] == "global" else [[tmap(e) for e in row] for row in u]
+        return one(v) if case["scope"] == "overall" else {k: one(u) for k, u in v.items()}
+
+    case["v0"] = tmap_spec(case["v0"])
+    if case["v1"] is not None:
+        case["v1"] = tmap_spec(case["v1"])
+
+    def thr(v, t, i, j):
+        if case["scope"] != "overall":
+            v = v[case["keys_real"][t]]
+        return v if case["loc"] == "global" else v[i][j]
+
+    vals = []
+    for t in range(case["T"]):
+        for i in range(case["I"]):
+            for j in range(case["J"]):
+                v = case["v0"] if (case["v1"] is None or rng.random() < 0.5) else case["v1"]
+                vals.append(Fraction(near_value(rng, float(thr(v, t, i, j)), unit, regime != "signed")))
+    case["vals"] = vals
+    case["x"] = np.array([float(v) for v in vals]).reshape(case["T"], case["I"], case["J"])
+    case["style"] = "near-" + regime
+    case["inexact"] = True
+    return case
+
+
+def well_conditioned(x):
+    """no location's total cancels (the percentage divides by it; float and exact totals then agree to rounding)"""
+    with np.errstate(all="ignore"):
+        tot, sa = x.sum(axis=0), np.abs(x).sum(axis=0)
+    return bool(np.all((np.abs(tot) >= 0.01 * sa) | (sa == 0)))
+
+
+def predefined_metrics():
+    """the metric objects the library ships (wet_days, dry_days, warm_days, ...): overall scope, global thresholds"""
+    from ibicus.evaluate import metrics as M
+
+    found = []
+    for name, m in sorted(vars(M).items()):
+        if not isinstance(m, M.ThresholdMetric) or m.threshold_scope != "overall" or m.threshold_locality != "global":
+            continue
+        try:
+            tv = [float(v) for v in m.threshold_value] if isinstance(m.threshold_value, (list, tuple, np.ndarray)) else [float(m.threshold_value)]
+        except (TypeError, ValueError):
+            continue
+        if m.threshold_type in TYPES and len(tv) == (2 if m.threshold_type in ("between", "outside") else 1) and all(math.isfinite(v) for v in tv):
+            found.append((name, m, tv))
+    return found
+
+
+def predefined_case(name, m, tv, data_seed):
+    """near-threshold data for a shipped metric object; the definition is read off its declared attributes"""
+    rng = random.Random(data_seed)
+    I, J = rng.choice(SHAPES)
+    T = rng.randint(1, 20)
+    unit = max(abs(v) for v in tv) or 1.0
+    vals = [Fraction(near_value(rng, rng.choice(tv), unit, all(v > 0 for v in tv))) for _ in range(T * I * J)]
+    start = datetime.date(rng.randint(1960, 2060), 1, 1) + datetime.timedelta(days=rng.randint(0, 365))
+    time = np.array([start + datetime.timedelta(days=k) for k in range(T)], dtype=object)
+    return dict(I=I, J=J, T=T, tkind="tiny", order="sorted", time=time, time_kind="date", time_lib=time, style="near-predefined", vals=vals,
+                x=np.array([float(v) for v in vals]).reshape(T, I, J), ty=m.threshold_type, loc="global", scope="overall",
+                v0=Fraction(tv[0]), v1=Fraction(tv[1]) if len(tv) > 1 else None, codes=None, keys_real=None, code_of=lambda k: int(k),
+                time_none=True, expect_error=None, minlen=0, force=None, inexact=True, predefined=name, data_seed=data_seed)
+
+
+def judge_predefined(case, m):
+    """instances / probability (and filter, intensity for accumulative metrics) of a shipped metric object against the
+    defining comparison with its declared threshold; [(kind, message)]"""
+    from ibicus.evaluate.metrics import AccumulativeThresholdMetric
+
+    x, ref, bad = case["x"], ref_instances(case), []
+    snap = x.tobytes()
+
+    def call(name, f):
+        try:
+            with warnings.catch_warnings(), np.errstate(all="ignore"):
+                warnings.simplefilter("ignore")
+                r = f()
+        except Exception as e:  # noqa: BLE001
+            bad.append((f"{name}-raises", f"{name}: unexpected error {type(e).__name__} on a well-formed request (shipped metric {case['predefined']})"))
+            return None
+        if x.tobytes() != snap:
+            bad.append(("dataset_unchanged", f"{name} modified the dataset passed in (shipped metric {case['predefined']})"))
+            x[...] = np.frombuffer(snap, dtype=x.dtype).reshape(x.shape)
+        return r
+
+    try:
+        inst = call("inst", lambda: m.calculate_instances_of_threshold_exceedance(x))
+        if inst is not None and (not isinstance(inst, np.ndarray) or inst.shape != x.shape or not np.array_equal(inst, ref)):
+            k = np.argwhere(np.asarray(inst) != ref) if getattr(inst, "shape", None) == x.shape else np.zeros((0, 3), dtype=int)
+            bad.append(("instances_def", f"instances of the shipped metric {case['predefined']} ({case['ty']} {[float(v) for v in (case['v0'], case['v1']) if v is not None]}) "
+                        f"differ from the defining comparison at {k[:3].tolist()} ({k.shape[0]} entries)"))
+        prob = call("prob", lambda: m.calculate_exceedance_probability(x))
+        if prob is not None and not (isinstance(prob, np.ndarray) and prob.shape == ref.shape[1:] and np.allclose(prob, ref.mean(axis=0), rtol=0, atol=1e-12)):
+            bad.append(("probability_mean", f"exceedance probability of the shipped metric {case['predefined']} is not the per-location mean of the instances"))
+        if isinstance(m, AccumulativeThresholdMetric):
+            filt = call("filt", lambda: m.filter_threshold_exceedances(x))
+            if filt is not None and not (isinstance(filt, np.ndarray) and np.array_equal(filt, np.where(ref == 1, x, 0.0))):
+                bad.append(("accumulative_filter", f"filter_threshold_exceedances of the shipped metric {case['predefined']} is not (value where the condition is met, 0 elsewhere)"))
+            ii = call("intensity", lambda: m.calculate_intensity_index(x))
+            cnt, amount = ref.sum(axis=0), np.where(ref == 1, x, 0.0).sum(axis=0)
+            if ii is not None and not (isinstance(ii, np.ndarray) and ii.shape == cnt.shape and np.allclose(ii[cnt > 0], amount[cnt > 0] / cnt[cnt > 0], rtol=1e-10, atol=1e-9)
+                                       and not np.isfinite(ii[cnt == 0]).any()):
+                bad.append(("accumulative_intensity", f"intensity index of the shipped metric {case['predefined']} is not amount / number of exceeding steps"))
+    except Exception as e:  # noqa: BLE001
+        bad.append(("malformed_result", f"the results of the shipped metric {case['predefined']} cannot be evaluated ({type(e).__name__}: {str(e)[:120]})"))
+    return bad
+
+
+def scale_qcase(rng, qc):
+    """the tie-free sample of a from_quantile case moved to a physical magnitude with a spacing that is small against
+    the values (quantifier: 'quantile-defined metrics are exceeded with the corresponding empirical frequency' for all
+    datasets — the frequency must not depend on the unit the data come in)"""
+    regime = rng.choice(["flux", "kelvin", "large", "unit"])
+    base, gap = {"flux": (5e-5, 1e-10), "kelvin": (290.0, 1e-5), "large": (1e6, 1e-3), "unit": (1.0, 1e-9)}[regime]
+    vals = [Fraction(base + gap * float(v * 64)) for v in qc["vals"]]
+    if len(set(vals)) != len(vals) or min(vals) <= 0:  # cannot happen (gap >> ulp(base)); keep the dyadic sample then
+        return qc
+    qc = dict(qc)
+    qc["vals"] = vals
+    qc["x"] = np.array([float(v) for v in vals]).reshape(qc["T"], qc["I"], qc["J"])
+    qc["dyadic"] = False  # float interpolation of the thresholds rounds: only the frequencies are judged
+    qc["scaled"] = regime
+    return qc
 
 
 # ------------------------------------------------------------------ the check
@@ -778,6 +966,8 @@ def run(tier, res, force_search=False):
                        "values are dyadic rationals so that float sums/comparisons are exact; ratios (probability, percent, intensity, extent) within 1e-9*(1+scale)",
                        "percent in [0,100] is claimed for non-negative data with a positive total; intensity / percent are NaN/inf (model: undefined) when the denominator is 0",
                        "non-finite values: only at time steps that do not meet the condition (amounts are over the instances only); the percentage's total runs over all steps, so it is judged on finite series only",
+                       "near-threshold cases: arbitrary binary64 values (every float is a dyadic rational, so the defining comparison is judged exactly, also 1 ulp beyond the threshold); "
+                       "their sums round, so the percentage is judged (rtol 1e-10) and the case is sent to the model only where no location's total cancels (|sum| >= 1% of sum of |values|)",
                        "quantile frequencies are claimed for tie-free samples; for non-dyadic q the float (n-1)*q may fall on the other side of an integer (accepted, counted)"]
 
     lean_ok = C.lean_phase(res, PROP, GEN, TARGETS)
@@ -999,6 +1189,60 @@ def run(tier, res, force_search=False):
         res.count(("nonfinite", case["ty"], case["scope"], case["loc"], case["I"], case["J"]), True)
     res.extra["nonfinite_cases"] = n_nf
 
+    # ---- near-threshold margins at physical magnitudes (own PRNG stream, so the cases above / below keep theirs):
+    #      covers "for all datasets" of the clause "the instance array equals the defining (strict) comparison" for values
+    #      that are beyond the threshold by 1 ulp ... 1e-3 at flux / Kelvin / large / tiny / signed magnitudes, for every
+    #      type, locality and scope, hand-made metrics, the metric objects the library ships, and quantile-defined ones
+    rng_near = random.Random(C.seed() * 104729 + 1919)
+    n_near = 60 if tier == "quick" else 500
+    n_pre = 2 if tier == "quick" else 10
+    n_qs = 20 if tier == "quick" else 150
+    if force_search or not lean_ok:
+        n_near, n_qs = 3 * n_near, 3 * n_qs
+    for k in range(n_near):
+        case = near_case(rng_near, tier)
+        out, probs = run_real(case, make_metric(case))
+        desc = describe(case)
+        size = case["T"] * case["I"] * case["J"]
+        for kd, p in probs:
+            problems_all.append((kd, p, desc, size))
+        for kd, b in oracle(case, out):
+            problems_all.append((kd, b + f" (values on / just beyond / far from the threshold, {case['style']} magnitudes)", desc, size))
+        inst = out["inst"]
+        res.count(("near", case["style"], case["ty"], case["loc"], case["scope"]), isinstance(inst, np.ndarray) and 0 < int(inst.sum()) < inst.size,
+                  sample={**describe(case, with_data=False), "instances": int(inst.sum()) if isinstance(inst, np.ndarray) else inst})
+        if well_conditioned(case["x"]):  # the exact model and the float code then agree to rounding on every ratio
+            ln = safe_line(case, out)
+            if ln is not None:
+                lines.append(ln)
+                expect.append(("all", case, out))
+                res.extra["near_lines"] = res.extra.get("near_lines", 0) + 1
+    res.extra["near_threshold_cases"] = n_near
+    try:
+        shipped = predefined_metrics()
+    except Exception as e:  # noqa: BLE001
+        shipped = []
+        problems_all.append(("malformed_result", f"the metric objects shipped by ibicus.evaluate.metrics cannot be listed ({type(e).__name__}: {str(e)[:100]})",
+                             {"what": "predefined_metrics"}, 1))
+    for name, m, tv in shipped:
+        for k in range(n_pre):
+            case = predefined_case(name, m, tv, rng_near.randint(0, 10**9))
+            desc = {**describe(case), "predefined": name, "data_seed": case["data_seed"]}
+            for kd, b in judge_predefined(case, m):
+                problems_all.append((kd, b, desc, case["T"] * case["I"] * case["J"]))
+            res.count(("predefined", name, case["ty"]), True)
+    res.extra["predefined_metrics"] = [name for name, _, _ in shipped]
+    for k in range(n_qs):
+        qc = scale_qcase(rng_near, gen_qcase(rng_near, tier))
+        try:
+            _, _, probs = run_qcase(qc, res)
+        except Exception as e:  # noqa: BLE001
+            probs = [("malformed_result", f"from_quantile metric: results cannot be evaluated ({type(e).__name__}: {str(e)[:100]})")]
+        for kind, p in probs:
+            problems_all.append((kind, p + f" (sample at {qc.get('scaled')} magnitudes)", describe_q(qc), qc["T"] * qc["I"] * qc["J"]))
+        res.count(("fromq-scaled", qc.get("scaled"), qc["ty"], qc["loc"], qc["scope"]), True)
+    res.extra["scaled_quantile_cases"] = n_qs
+
     # ---- quantile-defined metrics
     for k in range(n_q):
         qc = gen_qcase(rng, tier)
@@ -1131,6 +1375,18 @@ def replay(data):
         if not bad:
             print("  the recorded input no longer fails")
         return 1 if bad else 0
+    if fi and fi.get("predefined"):
+        shipped = {name: (m, tv) for name, m, tv in predefined_metrics()}
+        if fi["predefined"] not in shipped:
+            print(f"  the shipped metric {fi['predefined']} no longer exists as an overall/global threshold metric")
+            return 1
+        m, tv = shipped[fi["predefined"]]
+        bad = [b for _, b in judge_predefined(predefined_case(fi["predefined"], m, tv, fi["data_seed"]), m)]
+        for b in bad:
+            print("  still failing:", b)
+        if not bad:
+            print("  the recorded input no longer fails")
+        return 1 if bad else 0
     if not fi or "data" not in fi or "time" not in fi or "threshold_value" not in fi:
         print("replay: the recorded case carries no explicit data (large case); re-run ./check C19 with the recorded seed")
         return 2
@@ -1161,7 +1417,8 @@ def replay(data):
                 vals=vals, x=np.array([float(v) for v in vals]).reshape(T, I, J), ty=fi["ty"], loc=loc,
                 scope=scope, v0=dec(parts[0]), v1=dec(parts[1]) if len(parts) > 1 else None, codes=codes, keys_real=keys_real,
                 code_of=(lambda k: SEASON_CODE[k]) if scope == "season" else (lambda k: int(k)), time_none=fi["time_none"],
-                expect_error=fi["expect_error"], minlen=fi["minlen"], tkind=fi["tkind"], order=fi["order"], style=fi["style"])
+                expect_error=fi["expect_error"], minlen=fi["minlen"], tkind=fi["tkind"], order=fi["order"], style=fi["style"],
+                inexact=str(fi.get("style", "")).startswith("near"))
     m = make_metric(case)
     if fi.get("sequence_on_one_metric_object"):
         # the failure was observed on a metric object / buffers that had been used before: evaluate once on other
